@@ -43,7 +43,12 @@ import (
 
 // sysValues: the first sysPrimary values are used at every position in both
 // tiers, the rest only in the thorough tier.
-var sysValues = []uint64{1<<32 - 1, 1 << 31, 1 << 16, 255, 1<<32 - 2, 1<<31 - 1, 1 << 32, 1 << 24, 65535, 256}
+// The values from index 4 on need Exp-Golomb prefixes of 32..64 zero bits
+// (see putUE).
+var sysValues = []uint64{1<<32 - 1, 1 << 31, 1 << 16, 255, maxU64, 1 << 63, 1 << 32, 1<<33 - 1, 1<<32 - 2, 1<<31 - 1, 1 << 24, 65535, 256}
+
+// sysInserted: how many of the values the thorough tier also inserts.
+const sysInserted = 4
 
 type sysStream struct {
 	name     string
@@ -51,6 +56,7 @@ type sysStream struct {
 	origin   string // real | literal | handbuilt | ref
 	sps, pps []byte
 	elems    [2]map[int]string // RBSP bit position -> syntax element that starts there (ref streams only)
+	fields   [2][]fieldPos     // the syntax elements of two or more bits (ref streams only)
 	slices   [][]byte
 	seis     [][]byte
 	features []string
@@ -69,7 +75,15 @@ var (
 	sysPositions int
 	sysPer       int // cases per position
 	sysInfo      map[string]int
+	// sysFixed: the syntax elements (>= 2 bits) of the parameter sets whose layout is known (ref contexts); each is
+	// forced to all ones and incremented by one (two cases per element, after the per-position cases).
+	sysFixed []sysFixedTarget
 )
+
+type sysFixedTarget struct {
+	stream, which int
+	f             fieldPos
+}
 
 func hdrLen(codec string) int {
 	if codec == "hevc" {
@@ -122,7 +136,7 @@ func forceUE(b []byte, n, pos int, v uint64, insert bool) *bitw.W {
 	for i := 0; i < pos; i++ {
 		w.Put(uint64(bitAt(b, i)), 1)
 	}
-	w.UE(v)
+	putUE(w, v)
 	from := pos
 	if !insert {
 		from += ueLenAt(b, pos, n)
@@ -160,6 +174,26 @@ func elemMap(c *h264.Coded) map[int]string {
 		}
 	}
 	return m
+}
+
+// fieldPos is a syntax element of at least two bits as the serializer
+// recorded it (fixed-width fields and Exp-Golomb codes alike).
+type fieldPos struct {
+	pos, n int
+	name   string
+}
+
+func fieldList(c *h264.Coded) []fieldPos {
+	var l []fieldPos
+	seen := map[int]bool{}
+	for _, e := range c.Elems {
+		if e.Len < 2 || e.Len > 64 || strings.HasPrefix(e.Name, "#") || seen[e.Pos] {
+			continue
+		}
+		seen[e.Pos] = true
+		l = append(l, fieldPos{e.Pos, e.Len, stripIdx(e.Name)})
+	}
+	return l
 }
 
 // ---------------------------------------------------------------------------
@@ -375,6 +409,7 @@ func refAVCStream(i int) (sysStream, bool) {
 	cs, cp := sps.Encode(3), pps.Encode(sps, 3)
 	st := sysStream{name: fmt.Sprintf("ref-avc-%02d", i), codec: "avc", origin: "ref", sps: cs.NAL, pps: cp.NAL}
 	st.elems[0], st.elems[1] = elemMap(cs), elemMap(cp)
+	st.fields[0], st.fields[1] = fieldList(cs), fieldList(cp)
 	var cand [][]byte
 	for _, f := range []struct {
 		nal uint
@@ -429,6 +464,16 @@ func refHEVCStream(i int) (sysStream, bool) {
 	if i%5 != 4 {
 		sps.ScalingListData = nil // keeps most sets short
 	}
+	if i%4 == 1 {
+		// a number of short-term sets that is not a power of two: short_term_ref_pic_set_idx can then code values >= N
+		want := []int{3, 5, 6, 7, 9, 12}[(i/4)%6]
+		if len(sps.STRPS) > want {
+			sps.STRPS = sps.STRPS[:want] // (an inter-predicted SPS set refers to its predecessor only)
+		}
+		for len(sps.STRPS) < want {
+			sps.STRPS = append(sps.STRPS, h265.GenSTRPS(r, len(sps.STRPS), false, sps.DerivedRPS(), 4))
+		}
+	}
 	if i%4 == 1 || i%4 == 2 {
 		if sps.VUI == nil {
 			sps.VUI = &h265.VUI{}
@@ -459,6 +504,7 @@ func refHEVCStream(i int) (sysStream, bool) {
 	cs, cp := sps.Encode(1), pps.Encode(1)
 	st := sysStream{name: fmt.Sprintf("ref-hevc-%02d", i), codec: "hevc", origin: "ref", sps: cs.NAL, pps: cp.NAL}
 	st.elems[0], st.elems[1] = elemMap(cs), elemMap(cp)
+	st.fields[0], st.fields[1] = fieldList(cs), fieldList(cp)
 	var cand [][]byte
 	for _, f := range []struct {
 		nal   uint
@@ -471,6 +517,10 @@ func refHEVCStream(i int) (sysStream, bool) {
 			s.NalUnitType, s.SliceType, s.NumRefIdxActiveOverride, s.FirstSliceSegmentInPic = f.nal, f.typ, f.ov, f.first
 			s.TemporalIDPlus1 = 1
 			s.DependentSliceSegment = false
+			if try == 0 && len(sps.STRPS) > 0 {
+				// the first candidate of every class refers to the last short-term set of the SPS
+				s.ShortTermRefPicSetSps, s.STRPS, s.ShortTermRefPicSetIdx = true, nil, uint64(len(sps.STRPS)-1)
+			}
 			if s.IsIRAP() && !pps.CurrPicRef() {
 				s.SliceType = 2
 			}
@@ -654,20 +704,30 @@ func buildSysPlan(s *seedSet, thorough bool) int {
 			sysPositions += n
 		}
 	}
-	return sysPositions * sysPer
+	sysFixed = nil
+	for i, st := range sysStreams {
+		for which := 0; which < 2; which++ {
+			for _, f := range st.fields[which] {
+				if f.pos < maxPos {
+					sysFixed = append(sysFixed, sysFixedTarget{i, which, f})
+				}
+			}
+		}
+	}
+	return sysPositions*sysPer + 2*len(sysFixed)
 }
 
-// sysReps: mutations per position. Quick: ue(v) for the four primary values
-// (replace) and a single-bit flip. Thorough: all values (replace), the four
-// primary values inserted, and the flip.
+// sysReps: mutations per position. Quick: ue(v) for the eight primary values
+// (replace; four of them with 32..64 leading zero bits) and a single-bit flip.
+// Thorough: all values (replace), the first four values inserted, and the flip.
 func sysReps(thorough bool) int {
 	if thorough {
-		return len(sysValues) + sysPrimary + 1
+		return len(sysValues) + sysInserted + 1
 	}
 	return sysPrimary + 1
 }
 
-const sysPrimary = 4
+const sysPrimary = 8
 
 // sysChoice maps (rep within a position) to the mutation: flip, or (value, insert).
 func sysChoice(thorough bool, rep int) (flip bool, v uint64, insert bool) {
@@ -678,7 +738,7 @@ func sysChoice(thorough bool, rep int) (flip bool, v uint64, insert bool) {
 	switch {
 	case rep < n:
 		return false, sysValues[rep], false
-	case thorough && rep < n+sysPrimary:
+	case thorough && rep < n+sysInserted:
 		return false, sysValues[rep-n], true
 	}
 	return true, 0, false
@@ -708,26 +768,54 @@ func flipBitNAL(nal []byte, hdr, pos int) []byte {
 }
 
 func genChainUE(x *runCtx, c *runner.Ctx, sub int) *job {
-	p := sub / sysPer
-	rep := sub % sysPer
-	// locate the target
-	lo, hi := 0, len(sysTargets)-1
-	for lo < hi {
-		mid := (lo + hi + 1) / 2
-		if sysTargetOff[mid] <= p {
-			lo = mid
+	var tg sysTarget
+	var pos int
+	var flip, insert bool
+	var v uint64
+	fixed, fixedDesc := false, ""
+	var hostile []byte
+	if sub >= sysPositions*sysPer {
+		// a syntax element of a ref context forced as a fixed-width field
+		ft := sysFixed[(sub-sysPositions*sysPer)/2]
+		tg = sysTarget{stream: ft.stream, which: ft.which}
+		pos, fixed = ft.f.pos, true
+		st := &sysStreams[tg.stream]
+		nal := [][]byte{st.sps, st.pps}[tg.which]
+		hdr := hdrLen(st.codec)
+		rbsp := bitw.Unescape(nal[hdr:])
+		var w *bitw.W
+		if sub%2 == 0 {
+			w = forceOnes(rbsp, rbspDataBits(rbsp), pos, ft.f.n)
+			fixedDesc = fmt.Sprintf("all %d bits set to one", ft.f.n)
 		} else {
-			hi = mid - 1
+			w = forceIncr(rbsp, rbspDataBits(rbsp), pos, ft.f.n)
+			fixedDesc = fmt.Sprintf("the %d-bit number incremented by one", ft.f.n)
 		}
+		w.TrailingBits()
+		hostile = append(cp(nal[:hdr]), bitw.Escape(w.Bytes())...)
+	} else {
+		p := sub / sysPer
+		rep := sub % sysPer
+		// locate the target
+		lo, hi := 0, len(sysTargets)-1
+		for lo < hi {
+			mid := (lo + hi + 1) / 2
+			if sysTargetOff[mid] <= p {
+				lo = mid
+			} else {
+				hi = mid - 1
+			}
+		}
+		tg = sysTargets[lo]
+		pos = p - sysTargetOff[lo]
+		flip, v, insert = sysChoice(c.Env.Tier == "thorough", rep)
 	}
-	tg := sysTargets[lo]
-	pos := p - sysTargetOff[lo]
 	st := &sysStreams[tg.stream]
-	flip, v, insert := sysChoice(c.Env.Tier == "thorough", rep)
 	hdr := hdrLen(st.codec)
 	orig := [][]byte{st.sps, st.pps}
-	var hostile []byte
-	if flip {
+	if fixed {
+		// built above
+	} else if flip {
 		hostile = flipBitNAL(orig[tg.which], hdr, pos)
 	} else {
 		hostile = forceUENAL(orig[tg.which], hdr, pos, v, insert)
@@ -750,6 +838,11 @@ func genChainUE(x *runCtx, c *runner.Ctx, sub int) *job {
 		how, vs = "single bit flipped", "bit-flip"
 		ch.Flip = true
 		desc = fmt.Sprintf("chain-ue(%s): RBSP bit %d of the %s of %s flipped", st.codec, pos, kind, st.name)
+	}
+	if fixed {
+		how, vs = "syntax element forced as a fixed-width field", "fixed-width"
+		ch.Flip = true // (evidence: counted with the flips, not with the extreme Exp-Golomb values)
+		desc = fmt.Sprintf("chain-ue(%s): syntax element at RBSP bit %d of the %s of %s: %s", st.codec, pos, kind, st.name, fixedDesc)
 	}
 	if field != "" {
 		desc += " = " + field
@@ -1055,6 +1148,17 @@ func genCtxUE(x *runCtx, c *runner.Ctx, sub int) *job {
 		}
 		w.AlignZero()
 		j.items = append(j.items, item{In: append(cp(u[:hdr]), bitw.Escape(w.Bytes())...), Mode: "dependent", Desc: desc})
+	}
+	// fixed-width forcing: runs of ones and increments of the k-bit number that starts here
+	for m := 0; m < numFixedMutations(); m++ {
+		w, how := applyFixed(rbsp, len(rbsp)*8, pos, m)
+		w.AlignZero()
+		in := append(cp(u[:hdr]), bitw.Escape(w.Bytes())...)
+		if string(in) == string(u) {
+			continue // the bits already had that value
+		}
+		j.items = append(j.items, item{In: in, Mode: "dependent",
+			Desc: fmt.Sprintf("ctx-ue(%s): %s of slice %d of %s, parsed against the unmodified parameter sets of that context", st.codec, how, tg.slice, st.name)})
 	}
 	x.note("ctx_ue_context", st.codec+" "+st.origin)
 	x.note("ctx_ue_position_class", fmt.Sprintf("%s slice bits %d..%d", st.codec, pos/32*32, pos/32*32+31))
